@@ -64,6 +64,36 @@ def finite_iterator(ty):
     return any(re.match(bx, t) for bx in FINITE_BASES)
 
 
+FINITE_SOURCES = (r"std::vec::Vec<", r"\[[^;\]]+; \d+\]", r"&?\[[^;\]]+\]", r"std::collections::\w+::\w+<",
+                  r"indexmap::\w+::\w+<", r"std::string::String", r"std::option::Option<", r"&?str$",
+                  r"std::ops::Range<", r"std::ops::RangeInclusive<")
+
+
+def _generic_param_finite(lib, fn_name, ty):
+    """`<T as IntoIterator>::IntoIter` (the iterator of a generic parameter of fn_name): every call of fn_name in the
+    crate instantiates its type parameters only with finite collections / finite iterators (or with types that are
+    not iterable at all, like the reader), so the loop over the parameter ends."""
+    if ty is None:
+        return False
+    m = re.match(r"<(\w+) as std::iter::IntoIterator>::IntoIter$", ty.replace("&mut ", "").strip())
+    if not m:
+        return False
+    bodies = getattr(lib, "raw_bodies", None) or lib.bodies
+    roots = {fn_name} | set(lib.roots_of(fn_name) if hasattr(lib, "roots_of") else ())
+    calls = [c for b in bodies.values() for c in b.calls if (c.name or "") in roots]
+    if not calls:
+        return False
+    for c in calls:
+        for g in c.gargs or []:
+            g = g.strip()
+            if re.match(r"^[A-Z]\w{0,2}$", g):
+                continue        # a type parameter of the caller handed on (the reader's R)
+            if finite_iterator(g) or any(re.match(x, g.replace("&", "").strip()) for x in FINITE_SOURCES):
+                continue
+            return False
+    return True
+
+
 def _unbox(b, ty):
     """A `Box<dyn Iterator<..>>` driver: if every unsizing cast to that type in the body starts from a Box of a finite
     iterator, answer one of those concrete types."""
@@ -304,6 +334,8 @@ def progress(rep, ctx):
                 tys = [iter_type(c) for c in drv]
                 tys = [_unbox(b, t) for t in tys]
                 fin = [t for t in tys if finite_iterator(t)]
+                if not fin:
+                    fin = [t for t in tys if _generic_param_finite(lib, name, t)]
                 if fin:
                     r.ok(key, "driven by %s" % fin[0][:90], where, nontrivial=False)
                 elif name in LOOP_TABLE:
